@@ -37,7 +37,7 @@ def _balanced(t):
     return False
 
 
-def synth_spec(rng: random.Random, *, nfs=None, formalism=None, helset=None, maxspin2=4, ntop=None, name_by=None, shape=None):
+def synth_spec(rng: random.Random, *, nfs=None, formalism=None, helset=None, maxspin2=4, ntop=None, name_by=None, shape=None, identical=False):
     """One random synthetic reaction spec (see ampl.make_reaction).  With ntop = 2 the reaction has two
     decay topologies over the same final state; intermediate states are named after their attached
     final-state set, so the same resonance (sub-decay) can occur below different parents."""
@@ -75,6 +75,12 @@ def synth_spec(rng: random.Random, *, nfs=None, formalism=None, helset=None, max
             spins[(i,)] = rng.choice([0, 0, 2])
             continue
         spins[(i,)] = rng.choice([1, 1, 3] if half and i == finals[-1] else ([1] if half and i == finals[-2] else [0, 0, 2, 2, 4 if maxspin2 >= 4 else 2]))
+    # identical=True: two final-state ids carry the same particle (with spin): symmetrisation over particles with projections
+    twin = None
+    if identical and len(finals) >= 3:
+        i, j = sorted(rng.sample(finals, 2))
+        twin = (i, j)
+        spins[(i,)] = spins[(j,)] = rng.choice([2, 2, 1])
     allsets = set()
     for t in tops:
         for e in t.edges:
@@ -93,6 +99,11 @@ def synth_spec(rng: random.Random, *, nfs=None, formalism=None, helset=None, max
     parts["A"] = {"spin2": spins[root], "parity": rng.choice([1, -1]), "mass": 3.1}
     for i in finals:
         parts[f"f{i}"] = {"spin2": spins[(i,)], "parity": rng.choice([1, -1]), "mass": 0.0 if massless[i] else rng.choice([0.14, 0.5, 0.94])}
+    fname = {i: f"f{i}" for i in finals}
+    if twin:
+        fname[twin[1]] = fname[twin[0]]
+        parts.pop(f"f{twin[1]}")
+        massless[twin[1]] = massless[twin[0]]
     inter_sets = sorted(S for S in allsets if 1 < len(S) < len(root))
     nalt = {S: rng.choice([1, 1, 2]) for S in inter_sets}
 
@@ -149,7 +160,7 @@ def synth_spec(rng: random.Random, *, nfs=None, formalism=None, helset=None, max
                 combos += groups[k]
         for h in combos:
             for alts in itertools.product(*[range(nalt[att[e]]) for e in inter]):
-                names = {init: "A", **{i: f"f{i}" for i in finals}, **{e: rname(att[e], a) for e, a in zip(inter, alts)}}
+                names = {init: "A", **{i: fname[i] for i in finals}, **{e: rname(att[e], a) for e, a in zip(inter, alts)}}
                 if formalism == "helicity":
                     nodes = {n: {"L2": NONE, "S2": NONE, "eta": eta_by_set[att[pe]]} for n, (pe, ch) in node_edges.items()}
                     transitions.append({"topology": top, "states": {e: [names[e], h[e]] for e in eids}, "nodes": nodes})
@@ -173,7 +184,7 @@ def synth_spec(rng: random.Random, *, nfs=None, formalism=None, helset=None, max
     if len({id(t["topology"]) for t in transitions}) < len(tops):
         return None
     return {"formalism": formalism, "particles": parts, "transitions": transitions,
-            "meta": {"nfs": nfs, "helset": helset, "tree": topo.tree_of(top0), "ntop": len(tops), "name_by": name_by}}
+            "meta": {"nfs": nfs, "helset": helset, "tree": topo.tree_of(top0), "ntop": len(tops), "name_by": name_by, "twin": twin}}
 
 
 def configure(builder, cfg: dict):
